@@ -197,7 +197,7 @@ func newCluster(id string, mode string, nNodes int, rf int) (*cluster, error) {
 	c.t0 = time.Now()
 	for i := 1; i <= nNodes; i++ {
 		n := &node{c: c, id: i, name: fmt.Sprintf("n%d", i), dir: filepath.Join(tmp, fmt.Sprintf("n%d", i)), term: -1,
-			status: proto.ServingStatus_NOT_MEMBER, advertised: -1, dbCommit: -1}
+			status: proto.ServingStatus_NOT_MEMBER, advertised: -1, dbCommit: -1, aheadTerm: -2}
 		if err := n.start(); err != nil {
 			return nil, err
 		}
@@ -323,7 +323,7 @@ var violMu sync.Mutex
 
 // Root causes after which the cluster is outside the protocol's invariants: what the monitors report later in the
 // same trace is a consequence, not an independent finding (it is counted, not reported).
-var tainting = []string{"swap:", "newterm:", "truncate:", "acked-write-lost", "ack:", "commit:not-on-quorum", "election:", "wal:", "panic:", "harness:"}
+var tainting = []string{"swap:", "newterm:", "truncate:", "acked-write-lost", "ack:", "commit:not-on-quorum", "election:", "wal:", "restart:", "panic:", "harness:"}
 
 func (c *cluster) violate(sig, detail string) {
 	violMu.Lock()
@@ -336,7 +336,8 @@ func (c *cluster) violate(sig, detail string) {
 		c.secondary = append(c.secondary, sig)
 		return
 	}
-	if c.figure8 && (strings.HasPrefix(sig, "commit:") || strings.HasPrefix(sig, "read:") || strings.HasPrefix(sig, "lin:") || strings.HasPrefix(sig, "leader:")) {
+	if c.figure8 && (strings.HasPrefix(sig, "commit:") || strings.HasPrefix(sig, "read:") || strings.HasPrefix(sig, "lin:") || strings.HasPrefix(sig, "leader:")) &&
+		!strings.HasPrefix(sig, "figure8:database-commit-offset-beyond-log-head") {
 		// a served-then-rolled-back entry (figure 8) leaves a node whose database has applied an entry that no longer
 		// exists in any log (the entries that later take its offset are never applied there: the database's commit
 		// offset is already past them); what that node's commit offset, database or readers show afterwards is a
